@@ -127,9 +127,9 @@ func c07Hand(r *lp.Run) {
 	// (1b) the outcome of parsing does not depend on the order in which components are met, and a reference
 	// is accepted exactly when the copy is
 	for _, pc := range []struct{ name, withRef, withCopy, class string }{
-		{"K31 an alias (a schema that is only a $ref) on a schema cycle",
+		{"an alias (a schema that is only a $ref) on a schema cycle",
 			`{"openapi":"3.0.3","info":{"title":"t","version":"1"},"paths":{},"components":{"schemas":{"A":{"$ref":"#/components/schemas/B"},"B":{"type":"object","properties":{"next":{"$ref":"#/components/schemas/A"}}}}}}`,
-			`{"openapi":"3.0.3","info":{"title":"t","version":"1"},"paths":{},"components":{"schemas":{"A":{"$ref":"#/components/schemas/B"},"B":{"type":"object","properties":{"next":{"$ref":"#/components/schemas/B"}}}}}}`, "K31"},
+			`{"openapi":"3.0.3","info":{"title":"t","version":"1"},"paths":{},"components":{"schemas":{"A":{"$ref":"#/components/schemas/B"},"B":{"type":"object","properties":{"next":{"$ref":"#/components/schemas/B"}}}}}}`, ""},
 		{"a header component used under a valid and under an invalid header name",
 			`{"openapi":"3.0.3","info":{"title":"t","version":"1"},"paths":{"/x":{"get":{"operationId":"x","responses":{"200":{"description":"ok","headers":{"X-Good":{"$ref":"#/components/headers/H"}}},"201":{"description":"ok","headers":{"Bad Name":{"$ref":"#/components/headers/H"}}}}}}},"components":{"headers":{"H":{"schema":{"type":"string"}}}}}`,
 			`{"openapi":"3.0.3","info":{"title":"t","version":"1"},"paths":{"/x":{"get":{"operationId":"x","responses":{"200":{"description":"ok","headers":{"X-Good":{"$ref":"#/components/headers/H"}}},"201":{"description":"ok","headers":{"Bad Name":{"schema":{"type":"string"}}}}}}}},"components":{"headers":{"H":{"schema":{"type":"string"}}}}}`, ""},
